@@ -65,13 +65,13 @@ def execute(case):
             state = {"k": 1000}
 
             class Wrapped:
-                def __call__(self_, x):
+                def __call__(self_, x, *a_, **k_):
                     inv = cons.n
                     if inv in reemit and cons.mode != "coro":
                         state["k"] += 1
                         log.add("emit", state["k"], 0, log.now())
                         entry.emit(E(0, {state["k"]}))
-                    return cons(x)
+                    return cons(x, *a_, **k_)
             w = Wrapped()
             # the sink holds the function: swap it
             for s_ in built.nodes:
